@@ -135,6 +135,7 @@ func check(args []string) int {
 	tmp, _ := os.MkdirTemp("", "ionvc-")
 	defer os.RemoveAll(tmp)
 	opts := &vc.SolveOpts{TimeoutS: timeout, TmpDir: tmp, Sem: make(chan struct{}, 16)}
+	opts.SlowHints = vc.LoadSlowHints(filepath.Join(*verif, "slow_hints.json"))
 	// Solver answers are cached across the property checks of one tree, keyed by the hash of
 	// the complete (sliced) SMT query: the verification conditions are regenerated from the
 	// source on every run, and only a byte-identical query reuses an earlier `unsat`.
